@@ -4,6 +4,9 @@ go 1.24.2
 
 require github.com/octohelm/gengo v0.0.0
 
-require golang.org/x/text v0.24.0 // indirect
+require (
+	golang.org/x/mod v0.24.0
+	golang.org/x/text v0.24.0 // indirect
+)
 
 replace github.com/octohelm/gengo => /repo
